@@ -31,7 +31,11 @@ sys.path.insert(0, REPO)
 
 import render  # noqa: E402
 import values  # noqa: E402
+import drive_codec  # noqa: E402
 from drive_codec import guarded, enc_outcome, dec_outcome  # noqa: E402
+
+# parsing a few modules takes 0.1 s on an idle machine; leave room for a loaded one
+drive_codec.CALL_TIMEOUT = int(os.environ.get('VERIF_CALL_TIMEOUT', '60'))
 
 PROBE = 'Top'
 
